@@ -224,25 +224,22 @@ Example tridiag_constructors_nonvacuous :
 Proof. cbn. auto. Qed.
 
 (* ---- det: the three-term continuant recurrence, for every n >= 1 and ANY arithmetic (floats included) ----
-   Full statement planned in DESIGN (P3):  tdet t = Ok (\det of the dense twin)  (mathcomp).
-   Proved here: tdet t is the continuant K n of the three diagonals, K being pinned by its defining
-   equations below.  Gap: the Laplace-expansion identity  K n = \det(dense t)  (expansion along the last
-   row, then along the last column of the minor) is not re-proved in Coq; the search oracle compares det
-   with an independent elimination-based determinant of the dense twin on every generated Rat case. *)
-Theorem tridiag_det_is_det_partial : forall (A : Arith) (t : tridiag A), wfT t -> 1 <= tn t ->
+   tdet t is the continuant K n of the three diagonals, K being pinned by its defining equations below.
+   (K n = \det of the dense twin over every field is [tridiag_det_is_det] at the end of this file.) *)
+Theorem tridiag_det_is_continuant : forall (A : Arith) (t : tridiag A), wfT t -> 1 <= tn t ->
   tdet t = Ok (continuant t (tn t)) /\
   continuant t 0 = one /\
   continuant t 1 = (nth 0 (tmain t) zero * one)%A /\
   forall k, continuant t (S (S k)) =
     (nth (S k) (tmain t) zero * continuant t (S k) - nth k (tsub t) zero * nth k (tsup t) zero * continuant t k)%A.
 Proof. intros A t. exact (tdet_continuant_lemma t). Qed.
-Check tridiag_det_is_det_partial : forall (A : Arith) (t : tridiag A), wfT t -> 1 <= tn t ->
+Check tridiag_det_is_continuant : forall (A : Arith) (t : tridiag A), wfT t -> 1 <= tn t ->
   tdet t = Ok (continuant t (tn t)) /\
   continuant t 0 = one /\
   continuant t 1 = (nth 0 (tmain t) zero * one)%A /\
   forall k, continuant t (S (S k)) =
     (nth (S k) (tmain t) zero * continuant t (S k) - nth k (tsub t) zero * nth k (tsup t) zero * continuant t k)%A.
-Print Assumptions tridiag_det_is_det_partial.
+Print Assumptions tridiag_det_is_continuant.
 
 (* over an exact field, det is the product of the Thomas pivots whenever elimination meets no zero pivot
    (so det and solve describe one and the same elimination) *)
@@ -278,3 +275,31 @@ Check tridiag_det_is_det : forall (F : ssralg.GRing.Field.type) (abs' : ssralg.G
   (t : tridiag (ArithOfField abs' ltb' leb')), wfT t -> 1 <= tn t ->
   tdet t = Ok (@matrix.determinant (ssralg.GRing.Field.ringType F) (tn t) (dense_mx t)).
 Print Assumptions tridiag_det_is_det.
+
+(* ---- over the reals: a strictly (row) diagonally dominant system is never refused ----
+   [AR] is the Arith of Coq's real numbers (division by 0 = Panic DivZero, == decided by Req_EM_T);
+   [dominant t] : for every row i < n,  |main[i]| > |sub[i-1]| + |sup[i]|  (a missing neighbour counts 0).
+   Every pivot then satisfies |beta_k| > |sup[k]| >= 0.  This is the exact-arithmetic half of what the
+   property says about diagonally dominant f64 systems; rounding (backward stability) is not proved. *)
+From Coq Require Import Reals Lra.
+From OV Require Import Proofs.TridiagDominant.
+Theorem thomas_dominant_never_refuses : forall (t : tridiag AR) (r : list AR),
+  wfT t -> dominant t -> (1 <= tn t)%nat -> length r = tn t ->
+  exists u, tsolve t r = Ok u /\ length u = tn t /\
+    forall i, (i < tn t)%nat -> sum_n (tn t) (fun j => (dense t i j * nth j u zero)%A) = nth i r zero.
+Proof. intros t r W D. exact (dominant_solved_lemma t W D r). Qed.
+Check thomas_dominant_never_refuses : forall (t : tridiag AR) (r : list AR),
+  wfT t -> dominant t -> (1 <= tn t)%nat -> length r = tn t ->
+  exists u, tsolve t r = Ok u /\ length u = tn t /\
+    forall i, (i < tn t)%nat -> sum_n (tn t) (fun j => (dense t i j * nth j u zero)%A) = nth i r zero.
+Print Assumptions thomas_dominant_never_refuses.
+(* [[4,1,0],[1,-4,2],[0,-1,3]] is dominant *)
+Example thomas_dominant_nonvacuous :
+  let t := @mkT AR [1%R; (-1)%R] [4%R; (-4)%R; 3%R] [1%R; 2%R] 3 in
+  wfT t /\ dominant t /\ (1 <= tn t)%nat.
+Proof.
+  cbv zeta. split; [unfold wfT; cbn; auto|]. split; [|cbn; auto].
+  intros i Hi. cbn [tn] in Hi.
+  destruct i as [|[|[|i]]]; [| | |exfalso; apply (Nat.lt_irrefl 3); apply (Nat.le_lt_trans _ (S (S (S i)))); [apply le_n_S, le_n_S, le_n_S, Nat.le_0_l|exact Hi]];
+    cbn [nth tmain tsub tsup]; unfold Rabs; repeat destruct Rcase_abs; lra.
+Qed.
